@@ -1019,9 +1019,14 @@ def all_obligations(case):
 # discharge -- anything the solver still finds is a different violation.
 # =============================================================================================
 def _excl_no_cache_resident_archived(case, extra):
+    """the listed finding is the RETRIEVAL path of no_cache (`result = cache[key]; cache.clear()`): the excluded class is
+    'the call is answered by retrieval and some resident key is not archived'.  On the miss path nothing is excluded, so
+    a miss that drops resident entries without a dump is still reported."""
     pre = extra['pre']
     x = x_()
-    return forall([x], z3.Implies(pre.mem.dom[x], pre.A.dom[x]), patterns=[pre.mem.dom[x]])
+    key, kd, _ = case.key_terms(extra['a0'], extra['k0'])
+    retrieval = z3.And(kd, Hashable(key), z3.Or(pre.mem.dom[key], z3.And(z3.Not(pre.A.null), pre.A.dom[key])))
+    return z3.Or(z3.Not(retrieval), forall([x], z3.Implies(pre.mem.dom[x], pre.A.dom[x]), patterns=[pre.mem.dom[x]]))
 
 
 EXCLUSIONS = {
